@@ -15,6 +15,20 @@ use std::io::{self, Read, Write};
 use std::os::unix::ffi::OsStrExt;
 use std::time::Instant;
 
+// The Rust runtime sets SIGPIPE to "ignore" before main(); the disposition this process inherited is
+// captured earlier, from the ELF init array.
+static mut SIGPIPE_AT_START: isize = -1;
+extern "C" fn capture_sigpipe() {
+    unsafe {
+        let mut sa: libc::sigaction = std::mem::zeroed();
+        libc::sigaction(libc::SIGPIPE, std::ptr::null(), &mut sa);
+        SIGPIPE_AT_START = sa.sa_sigaction as isize;
+    }
+}
+#[used]
+#[link_section = ".init_array"]
+static INIT: extern "C" fn() = capture_sigpipe;
+
 fn hexenc(b: &[u8]) -> String {
     if b.is_empty() {
         return "-".into();
@@ -70,6 +84,7 @@ fn main() {
     if let Ok(st) = std::fs::read_to_string("/proc/self/status") {
         let g = |k: &str| st.lines().find(|l| l.starts_with(k)).map(|l| l[k.len()..].trim().to_string()).unwrap_or_default();
         rep.push_str(&format!("sig blk={} ign={} cgt={}\n", g("SigBlk:"), g("SigIgn:"), g("SigCgt:")));
+        rep.push_str(&format!("sigpipe_at_start {}\n", unsafe { SIGPIPE_AT_START }));
     }
     let mut fds: Vec<i32> = std::fs::read_dir("/proc/self/fd")
         .unwrap()
